@@ -68,6 +68,16 @@ def trainer_ops(al):
     return ops
 
 
+def count_line(al, alphabet):
+    """the real AlphabetLookup after smoothing, in the driver's `oc.train` format"""
+    es, lv = [], []
+    for key, d in al.grammar.items():
+        es.append(f"{enc(key)}:{d['ip_count']}:{d['ep_count']}:{d['cp_count']}:" + ','.join(f"{ord(c)}={v[1]}" for c, v in d['next_letter'].items()))
+        lv.append(f"{enc(key)}:{d['ip_level']}:" + ','.join(f"{ord(c)}={v[0]}" for c, v in d['next_letter'].items()))
+    return (f"a={enc(alphabet)} e={';'.join(es)} ln={','.join(str(x[1]) for x in al.ln_lookup)} tot={al.ip_counter},{al.ep_counter},{al.ln_counter} "
+            f"lv={';'.join(lv)} lns={','.join(str(x[0]) for x in al.ln_lookup)}")
+
+
 def save_rules(al, alphabet, keyspace, levels_count, n_valid, rd, ngram, encoding='utf-8'):
     from lib_trainer.omen.omen_file_output import save_omen_rules_to_disk
     info = {'encoding': encoding, 'ngram': ngram, 'alphabet': alphabet}
